@@ -68,9 +68,10 @@ and is registered -/
 theorem repairCopy_spec {e : Env} (he : WFEnv e) : ∀ (todo : List Path) (s : St),
     TreeOK e s.raw → TocOK e s (fun q r u => ObjAt s.raw q r u ∧ q ∉ todo) → todo.Nodup →
     (∀ q ∈ todo, ∃ r u, ObjAt s.raw q r u) → (∀ q r u, ObjAt s.raw q r u → u < s.next) →
-    ∃ s', repairMissing e todo false s = (.ok (), s') ∧ Inv e s'
+    ∃ s', repairMissing e todo false s = (.ok (), s') ∧ Inv e s' ∧
+      (∀ q n, q.head? ≠ some .toc → get? s.raw q = some n → q ∉ todo → get? s'.raw q = some n)
   | [], s, ht, hc, _, _, hb =>
-    ⟨s, rfl, inv_of_parts ht (hc.congr (fun p r u => by simp)) hb⟩
+    ⟨s, rfl, inv_of_parts ht (hc.congr (fun p r u => by simp)) hb, fun _ _ _ h _ => h⟩
   | p :: todo, s, ht, hc, hnd, hall, hb => by
     obtain ⟨hpn, hnd'⟩ := List.nodup_cons.mp hnd
     obtain ⟨r, u, hobj⟩ := hall p (by simp)
@@ -83,7 +84,7 @@ theorem repairCopy_spec {e : Env} (he : WFEnv e) : ∀ (todo : List Path) (s : S
     have hfree : get? s.raw new = none := by
       by_contra hg
       exact absurd (hb new r s.next ⟨base, m, hbase, rfl, hg⟩) (lt_irrefl _)
-    obtain ⟨t2, hmv, ht2, htoc2, -, hobj2⟩ := renameObj_spec ht hbase hex hfree
+    obtain ⟨t2, hmv, ht2, htoc2, -, hobj2, hframe2⟩ := renameObj_spec ht hbase hex hfree
     -- the linked objects are the same as before
     let L := fun q r' u' => ObjAt s.raw q r' u' ∧ q ∉ p :: todo
     have hnew_todo : new ∉ todo := by
@@ -161,8 +162,13 @@ theorem repairCopy_spec {e : Env} (he : WFEnv e) : ∀ (todo : List Path) (s : S
       rcases (hobj2 _ _ _).mp ((hobj3 _ _ _).mp ho) with ⟨h, -⟩ | ⟨-, -, rfl⟩
       · exact Nat.lt_succ_of_lt (hb q r' u' h)
       · exact Nat.lt_succ_self _
-    obtain ⟨s', hrun', hinv'⟩ := repairCopy_spec he todo s3 ht3 hc3 hnd' hall3 hb3
-    exact ⟨s', by rw [repairCopy_step_run e base m r u todo s t2 s3 hmv hrun3]; exact hrun', hinv'⟩
+    obtain ⟨s', hrun', hinv', hkeep'⟩ := repairCopy_spec he todo s3 ht3 hc3 hnd' hall3 hb3
+    refine ⟨s', by rw [repairCopy_step_run e base m r u todo s t2 s3 hmv hrun3]; exact hrun', hinv', ?_⟩
+    intro q n hqt hq hnot
+    simp only [List.mem_cons, not_or] at hnot
+    refine hkeep' q n hqt ?_ hnot.2
+    rw [step3.frame q hqt, hframe2 q hnot.1 (by rintro rfl; rw [hfree] at hq; cases hq)]
+    exact hq
 
 /-! ### assembling `copy` -/
 
@@ -220,24 +226,30 @@ theorem no_obj_below_ds {e : Env} {t : Tree} {ex : Path → Prop} (ht : TreeOKx 
     rw [h, hs] at this; cases this
   exact hg (none_below_ds ht.pclosed hv (List.prefix_append _ _) hne)
 
+/-- what `copy` leaves behind: the invariant holds, and nothing that existed has been touched -/
+def CopyPost (e : Env) (s s' : St) : Prop :=
+  Inv e s' ∧ ∀ q n, q.head? ≠ some .toc → get? s.raw q = some n → get? s'.raw q = some n
+
+theorem CopyPost.refl {e : Env} {s : St} (hi : Inv e s) : CopyPost e s s := ⟨hi, fun _ _ _ h => h⟩
+
 /-- `group.copy(source, dest, without_meta)`: success or failure -/
-theorem opCopy_inv {e : Env} (he : WFEnv e) {s : St} (hi : Inv e s) (src dst : Path) (wm : Bool) :
-    Inv e (opCopy e src dst wm s).2 := by
+theorem opCopy_spec {e : Env} (he : WFEnv e) {s : St} (hi : Inv e s) (src dst : Path) (wm : Bool) :
+    CopyPost e s (opCopy e src dst wm s).2 := by
   unfold opCopy guardPath
   cases hsi : isInternal src with
-  | true => simpa [hsi] using hi
+  | true => simpa [hsi] using CopyPost.refl hi
   | false =>
     simp only [Bool.false_eq_true, if_false, bind, M.bind, run_pure, run_getSt]
     cases hk : nodeKind s src with
-    | none => simpa using hi
+    | none => simpa using CopyPost.refl hi
     | some k =>
       simp only [run_ofOpt_some]
       cases hdi : isInternal dst with
-      | true => simpa [hdi] using hi
+      | true => simpa [hdi] using CopyPost.refl hi
       | false =>
         simp only [Bool.false_eq_true, if_false, run_pure, run_liftRaw]
         cases hcp : rawCopy s.raw src dst with
-        | error err => simpa using hi
+        | error err => simpa using CopyPost.refl hi
         | ok t1 =>
           simp only [run_getSt]
           have ht := hi.treeOK
@@ -253,6 +265,14 @@ theorem opCopy_inv {e : Env} (he : WFEnv e) {s : St} (hi : Inv e s) (src dst : P
           have hkd : nodeKind ⟨t1, s.c, s.next⟩ dst = some k := by
             rw [← nodeKind_of_get (s := s) (p := src) hdst1.symm]; exact hk
           simp only [hkd, run_ofOpt_some]
+          -- whatever existed is still there
+          have keep1 : ∀ q n, get? s.raw q = some n → get? t1 q = some n := by
+            intro q n hq
+            by_cases hq0 : q = []
+            · subst hq0; simpa using hq
+            · have hnd : ¬ dst <+: q := fun hp => by
+                rw [none_below_free ht.pclosed hfree hp] at hq; cases hq
+              rw [hreb1 q hq0, if_neg hnd, if_neg (by simp), hq]; rfl
           -- objects outside `dst` are the old ones
           have hold : ∀ p r u, ObjAt s.raw p r u → ¬ dst <+: p := by
             rintro p r u ⟨_, _, _, _, hg⟩ hpre
@@ -287,7 +307,8 @@ theorem opCopy_inv {e : Env} (he : WFEnv e) {s : St} (hi : Inv e s) (src dst : P
                 · exact absurd h (no_obj_below_ds ht hsi hv)
                 · exact h
               · intro h; exact Or.inr ⟨hold p r u h, h⟩
-            have hinv1 : Inv e ⟨t1, s.c, s.next⟩ := inv_of_same_objs hi ht1 htoc1 hobjs1
+            have hinv1 : CopyPost e s ⟨t1, s.c, s.next⟩ :=
+              ⟨inv_of_same_objs hi ht1 htoc1 hobjs1, fun q n _ hq => keep1 q n hq⟩
             cases wm with
             | true => simpa using hinv1
             | false =>
@@ -334,7 +355,7 @@ theorem opCopy_inv {e : Env} (he : WFEnv e) {s : St} (hi : Inv e s) (src dst : P
                     · exact h
                   · intro h
                     exact ⟨(hobj2 q r u).mpr (Or.inr ⟨hold2 q r u h, h⟩), fun hm => hold2 q r u h hm.2.1⟩
-                obtain ⟨s', hrun', hinv'⟩ := repairCopy_spec he (objsBelow t2 (b' ++ [.metaDir m'])) ⟨t2, s.c, s.next⟩
+                obtain ⟨s', hrun', hinv', hkeep'⟩ := repairCopy_spec he (objsBelow t2 (b' ++ [.metaDir m'])) ⟨t2, s.c, s.next⟩
                   ht2 (hc2.congr hL2) (objsBelow_nodup ht2.keys _)
                   (fun q hq => ((mem_objsBelow ht2 hdm0 (objPath_head hb') q).mp hq).1)
                   (fun q r u ho => by
@@ -342,13 +363,21 @@ theorem opCopy_inv {e : Env} (he : WFEnv e) {s : St} (hi : Inv e s) (src dst : P
                     · exact hb1 _ r u h
                     · exact hb1 _ r u h)
                 simp only [hrun']
-                exact hinv'
+                refine ⟨hinv', fun q n hqt hq => ?_⟩
+                have hq1 := keep1 q n hq
+                have hnd2 : ¬ b' ++ [Key.metaDir m'] <+: q := fun hp => by
+                  rw [none_below_free ht1.pclosed hfree2 hp] at hq1; cases hq1
+                refine hkeep' q n hqt ?_ (fun hm => hnd2 ((mem_objsBelow ht2 hdm0 (objPath_head hb') q).mp hm).2.1)
+                show get? t2 q = some n
+                by_cases hq0 : q = []
+                · subst hq0; simpa using hq
+                · rw [hreb2 q hq0, if_neg hnd2, if_neg (by simp), hq1]; rfl
           | false =>
             simp only [Bool.false_and, Bool.false_eq_true, if_false, run_pure, Bool.not_false, if_true]
             cases wm with
             | true =>
               simp only [if_true]
-              obtain ⟨s', hrun', ht', hnext', ⟨hcs, htoc'⟩, -, hgone, hsurv⟩ :=
+              obtain ⟨s', hrun', ht', hnext', ⟨⟨hcs, htoc'⟩, hmono'⟩, huser', hgone, hsurv⟩ :=
                 destroyMeta_spec (delSpec_tree e) (s := ⟨t1, s.c, s.next⟩) ht1 hdi hkd
               rw [hrun']
               have hobjs' : ∀ p r u, ObjAt s'.raw p r u ↔ ObjAt s.raw p r u := by
@@ -372,7 +401,28 @@ theorem opCopy_inv {e : Env} (he : WFEnv e) {s : St} (hi : Inv e s) (src dst : P
                 cases s'
                 simp only at hcs hnext'
                 rw [hcs, hnext']
-              rw [hs']; exact this
+              rw [hs']
+              refine ⟨this, fun q n hqt hq => ?_⟩
+              show get? s'.raw q = some n
+              have hq1 := keep1 q n hq
+              -- `q` is a user node, a surviving object, or the directory of a surviving object
+              rcases hmono' q hqt with hnone | hsame
+              · exfalso
+                have hq0 : q ≠ [] := by rintro rfl; simp at hnone
+                have hsh := ht.ushape q n hq0 hqt hq
+                cases hsh with
+                | user q n hqi _ => rw [huser' q hqi, hq1] at hnone; cases hnone
+                | metaDir base m hb =>
+                  obtain ⟨r, u, hru⟩ := ht.host_obj base m hb (by rw [hq]; simp)
+                  have ho : ObjAt s.raw (base ++ [.metaDir m, .obj r u]) r u := ⟨base, m, hb, rfl, hru⟩
+                  obtain ⟨_, _, _, _, hg'⟩ := (hobjs' _ _ _).mpr ho
+                  have := ht'.pclosed (base ++ [.metaDir m]) (.obj r u) (by simpa using hg')
+                  rw [hnone] at this; cases this
+                | obj base m r u tok hb =>
+                  have ho : ObjAt s.raw (base ++ [.metaDir m, .obj r u]) r u := ⟨base, m, hb, rfl, by rw [hq]; simp⟩
+                  obtain ⟨_, _, _, _, hg'⟩ := (hobjs' _ _ _).mpr ho
+                  exact hg' hnone
+              · rw [hsame]; exact hq1
             | false =>
               simp only [Bool.false_eq_true, if_false, run_getSt, bind, M.bind]
               have hmiss : findMissing ⟨t1, s.c, s.next⟩ dst = .ok (objsBelow t1 dst) := by
@@ -390,10 +440,20 @@ theorem opCopy_inv {e : Env} (he : WFEnv e) {s : St} (hi : Inv e s) (src dst : P
                   rw [ho.internal] at hdi; cases hdi
                 · rintro ⟨ho, hn⟩
                   exact ⟨ho, fun hm => hn hm.2.1⟩
-              obtain ⟨s', hrun', hinv'⟩ := repairCopy_spec he (objsBelow t1 dst) ⟨t1, s.c, s.next⟩
+              obtain ⟨s', hrun', hinv', hkeep'⟩ := repairCopy_spec he (objsBelow t1 dst) ⟨t1, s.c, s.next⟩
                 ht1 (hc1.congr hL1) (objsBelow_nodup ht1.keys _)
                 (fun q hq => ((mem_objsBelow ht1 hd0 (isInternal_head_ne_toc hdi) q).mp hq).1) hb1
               simp only [hrun']
-              exact hinv'
+              refine ⟨hinv', fun q n hqt hq => hkeep' q n hqt (keep1 q n hq) (fun hm => ?_)⟩
+              have hpre := ((mem_objsBelow ht1 hd0 (isInternal_head_ne_toc hdi) q).mp hm).2.1
+              rw [none_below_free ht.pclosed hfree hpre] at hq; cases hq
+
+theorem opCopy_inv {e : Env} (he : WFEnv e) {s : St} (hi : Inv e s) (src dst : Path) (wm : Bool) :
+    Inv e (opCopy e src dst wm s).2 := (opCopy_spec he hi src dst wm).1
+
+/-- `copy` never changes (or removes) anything that existed outside `/metador_container` -/
+theorem opCopy_keeps {e : Env} (he : WFEnv e) {s : St} (hi : Inv e s) (src dst : Path) (wm : Bool) {q : Path}
+    {n : Node} (hqt : q.head? ≠ some .toc) (hq : get? s.raw q = some n) :
+    get? (opCopy e src dst wm s).2.raw q = some n := (opCopy_spec he hi src dst wm).2 q n hqt hq
 
 end MetadorModel.Container
